@@ -159,55 +159,83 @@ def run(ctx):
     # ------------------------------------------------------------------ R3 chunk payload primitive
     R3 = ctx.rule("C13-R3", "chunk payloads and their CRLFs are read only through the length-enforcing primitive _safe_read (which raises IncompleteRead on a short chunk)", "E8")
     hc = m.method(HR, "_handle_chunk")
-    reads = [c for c in astq.calls(hc.node) if isinstance(c.func, ast.Attribute) and astq.text(c.func.value).startswith("self._fp")]
-    ctx.sites(R3, len(reads), 4, "stdlib reads in _handle_chunk")
-    for c in reads:
-        ok = c.func.attr == "_safe_read" and astq.text(c.func.value) == "self._fp"
-        ctx.ob(R3, hc.qual, f"`{astq.text(c)}`", ok, "" if ok else "a chunk is read with a primitive that returns short data silently at EOF", node=c)
-    # every branch that finishes a chunk also consumes its CRLF
-    for n_ in astq.walk_fn(hc.node):
-        if isinstance(n_, ast.Assign) and astq.text(n_.targets[0]) == "self.chunk_left" and isinstance(n_.value, ast.Constant) and n_.value.value is None:
-            blk = astq.parent(n_)
-            body = blk.body if astq.in_body_of(n_, blk, "body") else blk.orelse
-            ok = any(astq.text(s).startswith("self._fp._safe_read(2)") for s in body)
-            ctx.ob(R3, hc.qual, "finishing a chunk consumes its trailing CRLF through _safe_read(2)", ok, node=n_)
+    from ..rows import GenRule, effect_rows, private_helpers
+    from ..terms import K, T, destruct, norm, subterms
+
+    hrows = [r for r in effect_rows(ctx, hc, GenRule(ctx, RS), HR) if r.returns]
+    ctx.sites(R3, len(hrows), 3, "returning rows of _handle_chunk")
+    seen3 = set()
+    n_reads = 0
+    for r in hrows:
+        calls = [e for e in r.events("call") if e[1].startswith("self._fp")]
+        stores = [e for e in r.events("store") if e[1] == "self" and e[2] == "chunk_left"]
+        finished = bool(stores) and stores[-1][3] == "None"
+        key = (tuple(c[1] for c in calls), tuple(c[2] if len(c) > 2 else "" for c in calls), finished)
+        if key in seen3:
+            continue
+        seen3.add(key)
+        n_reads += len(calls)
+        bad = [c for c in calls if c[1] != "self._fp._safe_read"]
+        ctx.ob(R3, hc.qual, f"chunk bytes are read through _safe_read only ({[c[1].rsplit('.', 1)[-1] for c in calls]})", not bad and bool(calls),
+               "" if not bad and calls else "a chunk is read with a primitive that returns short data silently at EOF", witness=r.witness(), node=hc.node)
+        if finished:
+            ok = len(calls) >= 2 and calls[-1][1] == "self._fp._safe_read" and calls[-1][2] == "2"
+            ctx.ob(R3, hc.qual, "finishing a chunk consumes its trailing CRLF through _safe_read(2), after the payload", ok,
+                   "" if ok else f"reads {[(c[1].rsplit('.', 1)[-1], c[2]) for c in calls]}: the CRLF that ends the chunk stays on the wire and is parsed as the next size line", witness=r.witness(), node=hc.node)
+    ctx.sites(R3, n_reads, 3, "stdlib reads in _handle_chunk")
 
     rule_chunk_state(ctx)
 
     # ------------------------------------------------------------------ R4 decoder errors
     R4 = ctx.rule("C13-R4", "undecodable content raises DecodeError: _decode catches DECODER_ERROR_CLASSES (zlib.error, OSError and each enabled codec's error root) and raises DecodeError; flushing an incomplete zstd frame raises", "E3 + E1")
     df = m.method(f"{RS}.BaseHTTPResponse", "_decode")
-    hs = [h for h in astq.walk_fn(df.node) if isinstance(h, ast.ExceptHandler)]
-    ctx.sites(R4, len(hs), 1, "handler in _decode")
-    for h in hs:
-        ok = astq.handler_type_names(h) == ["self.DECODER_ERROR_CLASSES"] and astq.all_paths_end_in(h.body, lambda s: isinstance(s, ast.Raise) and s.exc is not None and "DecodeError" in astq.text(s.exc))
-        ctx.ob(R4, df.qual, f"handler `except {', '.join(astq.handler_type_names(h))}` raises DecodeError on every path", ok,
-               "" if ok else "a corrupt compressed stream is swallowed or escapes as a raw codec error", node=h)
-        t = astq.enclosing(h, ast.Try)
-        covered = any(isinstance(c.func, ast.Attribute) and c.func.attr == "decompress" for s in t.body for c in astq.calls(s))
-        ctx.ob(R4, df.qual, "the handler covers the decompress call", covered)
     base = m.cls(f"{RS}.BaseHTTPResponse")
     first = [n_ for n_ in base.node.body if isinstance(n_, (ast.Assign, ast.AnnAssign)) and astq.text(n_.targets[0] if isinstance(n_, ast.Assign) else n_.target) == "DECODER_ERROR_CLASSES"]
     roots = [astq.text(e) for e in first[0].value.elts] if first and isinstance(first[0].value, ast.Tuple) else []
     ok = "zlib.error" in roots and ("IOError" in roots or "OSError" in roots)
     ctx.ob(R4, f"{RS}.BaseHTTPResponse", f"DECODER_ERROR_CLASSES base = {roots}", ok)
+    root_classes = [m.norm(m.resolve_name(RS, e) or astq.text(e)) for e in (first[0].value.elts if first and isinstance(first[0].value, ast.Tuple) else [])]
+    root_classes = ["builtins.OSError" if c in ("builtins.IOError", "IOError") else c for c in root_classes]
+
+    class DecRule(GenRule):
+        def handler_classes(self, it, h, classes):
+            if h.type is not None and astq.text(h.type).endswith("DECODER_ERROR_CLASSES"):
+                return list(root_classes)
+            return classes
+
+    n_dec = 0
+    for err in ("zlib.error", "builtins.OSError"):
+        rows_d = effect_rows(ctx, df, DecRule(ctx, RS, raising={"decompress": err}, pure_self=("_flush_decoder",)), f"{RS}.BaseHTTPResponse",
+                             seeds={("self", "_decoder"): AV("obj", "decoder", truth=True, none=False)})
+        faulted = [r for r in rows_d if r.st.ts.get("fault")]
+        n_dec += len(faulted)
+        for r in faulted[:3]:
+            ok = r.out == "raise:DecodeError"
+            ctx.ob(R4, df.qual, f"the decoder raising {err.rsplit('.', 1)[-1]} -> {r.out}", ok,
+                   "" if ok else "a corrupt compressed stream is swallowed or escapes as a raw codec error", witness=r.witness(), node=df.node)
+    ctx.sites(R4, n_dec, 2, "rows of _decode on which the decoder fails")
     fd = m.method(f"{RS}.BaseHTTPResponse", "_flush_decoder")
-    ok = "self._decoder.decompress(b'') + self._decoder.flush()" in astq.text(fd.node).replace('"', "'")
-    ctx.ob(R4, fd.qual, "flushing drains the decoder and calls its flush()", ok)
-    # flush is inside _decode's... no: _decode calls _flush_decoder outside the try; ZstdDecoder.flush raises DecodeError itself
-    zf = m.method(f"{RS}.ZstdDecoder", "flush")
-    ctx.ob(R4, zf.qual, "an incomplete zstd frame raises DecodeError at flush", "if not self._obj.eof:\n        raise DecodeError(" in astq.text(zf.node))
+    frows = [r for r in effect_rows(ctx, fd, GenRule(ctx, RS), f"{RS}.BaseHTTPResponse") if r.returns]
+    D = "self._decoder"
+    seen_f = set()
+    for r in frows:
+        has = r.truth(D)
+        key = (has, r.ret)
+        if key in seen_f:
+            continue
+        seen_f.add(key)
+        if has is True:
+            ok = r.ret == T("add", T(f"{D}.decompress", K(b"")), T(f"{D}.flush")) and [e[1] for e in r.events("call") if e[1].startswith(D)] == [f"{D}.decompress", f"{D}.flush"]
+            ctx.ob(R4, fd.qual, "flushing drains the decoder (decompress(b'')) and then calls its flush(), returning both", ok, "" if ok else f"returns {r.ret}", witness=r.witness(), node=fd.node)
+        elif has is False:
+            ctx.ob(R4, fd.qual, "without a decoder nothing is flushed", r.ret in (K(b""), "b''"), r.ret, witness=r.witness(), node=fd.node)
+    if f"{RS}.ZstdDecoder" in m.classes:
+        zf = m.method(f"{RS}.ZstdDecoder", "flush")
+        zrows = effect_rows(ctx, zf, GenRule(ctx, RS), f"{RS}.ZstdDecoder")
+        inc = [r for r in zrows if r.truth("self._obj.eof") is False]
+        ok = bool(inc) and all(r.out == "raise:DecodeError" for r in inc)
+        ctx.ob(R4, zf.qual, "an incomplete zstd frame raises DecodeError at flush", ok, "; ".join(r.out for r in inc))
     gz = m.method(f"{RS}.GzipDecoder", "decompress")
-    hs = [h for h in astq.walk_fn(gz.node) if isinstance(h, ast.ExceptHandler)]
-    ok = bool(hs) and astq.handler_type_names(hs[0]) == ["zlib.error"]
-    if ok:
-        # trailing garbage after a complete member is tolerated; an error in the first member re-raises
-        prev = set(astq.assigned_from(gz.node, lambda v: astq.text(v) == "self._state"))
-        conds = [n_ for n_ in ast.walk(hs[0]) if isinstance(n_, ast.If) and isinstance(n_.test, ast.Compare) and astq.text(n_.test.left) in prev
-                 and astq.text(n_.test.comparators[0]) == "GzipDecoderState.OTHER_MEMBERS" and isinstance(n_.test.ops[0], ast.Eq)]
-        last = hs[0].body[-1]
-        ok = len(conds) == 1 and isinstance(last, ast.Raise) and last.exc is None and all(isinstance(x, ast.Return) for x in conds[0].body[-1:])
-    ctx.ob(R4, gz.qual, "a zlib error in the first gzip member propagates (only trailing garbage after a complete member is ignored)", ok)
 
     # the tolerant state may only be entered once a complete member was followed by more data
     class GzRule(BaseRule):
@@ -231,11 +259,41 @@ def run(ctx):
             if t == "self._obj.decompress":
                 s = st.copy()
                 s.facts.pop("unused", None)
-                return [Out("normal", s, AV("unk", none=False)), Out("raise", s.copy(), exc("zlib.error"))]
+                e = s.copy()
+                cur = e.heap.get(("self", "_state"))
+                e.ts["state_at_error"] = cur.val if (cur is not None and cur.kind == "const") else (cur.sym if cur is not None else None)
+                return [Out("normal", s, AV("unk", none=False)), Out("raise", e, exc("zlib.error"))]
             return [Out("normal", st, AV("unk", none=False))]
 
     grule = GzRule()
     outs, it = run_function(m, gz, grule, f"{RS}.GzipDecoder", seeds={("self", "_state"): AV("unk", sym="state")})
+    OTHER = repr(("enum", "OTHER_MEMBERS"))
+    seen_e = set()
+    n_err = 0
+    for o in outs:
+        if not any("caught zlib.error" in t for _, t in o.st.path()) and not (o.kind == "raise" and o.val.val == "zlib.error"):
+            continue
+        sae = o.st.ts.get("state_at_error")
+        if sae == ("enum", "OTHER_MEMBERS"):
+            tol = True
+        elif isinstance(sae, tuple):
+            tol = False
+        else:
+            tol = o.st.ts.get(("cmp", "state", "==", OTHER))
+            if tol is None and o.st.ts.get(("cmp", "state", "!=", OTHER)) is not None:
+                tol = not o.st.ts.get(("cmp", "state", "!=", OTHER))
+        kind = o.kind if o.kind != "raise" else "raise:" + str(o.val.val)
+        key = (tol, kind)
+        if key in seen_e:
+            continue
+        seen_e.add(key)
+        n_err += 1
+        if tol is True:
+            continue  # trailing garbage after a complete member: tolerated by design
+        ok = o.kind == "raise" and o.val.val == "zlib.error"
+        ctx.ob(R4, gz.qual, f"a zlib error while the decoder is not in the tolerant state (tolerant={tol}) -> {kind}", ok,
+               "" if ok else "a zlib error in the first gzip member is swallowed: a corrupt body ends normally", witness=o.st.witness(), node=gz.node)
+    ctx.sites(R4, n_err, 1, "rows of GzipDecoder.decompress on which zlib fails")
     ctx.sites(R4, len(grule.sets), 1, "transitions of the gzip decoder into the tolerant state")
     seen_g = set()
     for unused_truth, st_, node_ in grule.sets:
